@@ -44,7 +44,16 @@ def int_column_bounds(ctx, tk, rule):
         return
 
     def is_idx(t):
-        return all(a.k == "param" and a.a[0] == cp for a in alts(t))
+        # the caller's scalar itself, or its value as a Python int (int(x) / operator.index(x) / x.item())
+        def one(a):
+            if a.k == "param" and a.a[0] == cp:
+                return True
+            if a.k == "call" and len(a.a[1]) == 1 and ((a.a[0].k == "global" and a.a[0].a[0] == "int") or (attr_chain(a.a[0]) or ("",))[-1] == "index"):
+                return is_idx(a.a[1][0])
+            if a.k == "ifexp":
+                return all(is_idx(x) for x in a.a[1:3]) if len(a.a) >= 3 else False
+            return False
+        return all(one(a) for a in alts(t))
 
     def is_min(t):
         return (np_call(t, {"min", "amin"}) and t.a[1] and _self_attr(t.a[1][0], selfn, "lengths")) or \
@@ -456,7 +465,7 @@ def empty_row_rule(ctx, tk, rule):
     for sn, sv, srange in steps:
         for an, av in bounds:
             for bn, bv in bounds:
-                I = Interp(ctx, cls, {"lengths": Iv(0, 0)}, sym_range=srange)
+                I = Interp(ctx, cls, {"lengths": Iv(0, 0), "len:lengths": Iv(1, INF)}, sym_range=srange)
                 try:
                     res = I.run(m, [SliceV(av, bv, sv)], {})
                 except RecursionError:
@@ -523,7 +532,7 @@ def col_slice_model(ctx, tk, rule, Ns=(1, 2, 3), col_steps=(1, 2, -1)):
                         unk += 1
                         continue
                     elen, efirst = next(iter(exp))[0], next(iter(exp))[1]
-                    I = Interp(ctx, cls, {"lengths": Iv(N, N), "starts": Iv(0, 0), "col_step": Iv(C, C)}, sym_range=srange)
+                    I = Interp(ctx, cls, {"lengths": Iv(N, N), "starts": Iv(0, 0), "col_step": Iv(C, C), "len:lengths": Iv(1, INF)}, sym_range=srange)
                     try:
                         res = I.run(m, [SliceV(av, bv, sv)], {})
                     except RecursionError:
@@ -574,12 +583,52 @@ def col_slice_model(ctx, tk, rule, Ns=(1, 2, 3), col_steps=(1, 2, -1)):
                 ctx.violated(rule, m, what % (N, C), "slice %s on a row of %d cell(s): col_slice %s (%d cells of the selector partition disagree, %d agree)" % (
                     key, N, detail, len(bad), ok), key="model:N=%d,C=%d:%s" % (N, C, key), engine="E9")
         else:
-            ctx.decide(rule, m, what % (N, C), True if ok else None, key="model:N=%d,C=%d" % (N, C), engine="E9",
-                       detail_ok="%d cells of the selector partition agree, %d undecided" % (ok, unk))
+            # a cell the interpreter could not evaluate exactly is not agreement: the obligation holds only when every cell was decided
+            ctx.decide(rule, m, what % (N, C), True if (ok and not unk) else None, "%d of %d cells of the selector partition could not be evaluated exactly" % (unk, ok + unk),
+                       key="model:N=%d,C=%d" % (N, C), engine="E9", detail_ok="%d cells of the selector partition agree, %d undecided" % (ok, unk))
     return totals
 
 
-def int_column_model(ctx, tk, rule, Ns=(1, 2, 3), col_steps=(1, 2, -1)):
+def scalar_column_is_python_int(ctx, tk, rule):
+    """NEP 50: a numpy unsigned scalar times a negative Python int raises OverflowError (`np.uint8(1) * -1`).  A caller's
+    integer column index is multiplied with the view's column stride, which is negative for reversed views: the index has to be
+    turned into a Python int (int(), operator.index) first, otherwise `a[:, ::-1][:, np.uint8(1)]` fails where the same index on an
+    equal, freshly built array works"""
+    cls = ctx.program.cls("raggedshape.RaggedView2")
+    m = cls.lookup("col_slice")
+    if m is None:
+        return
+    what = "an integer column index is a Python int before it is multiplied with the (possibly negative) column stride"
+    sp = m.params[1]
+    mults = []
+    for x in ast.walk(m.node):
+        if isinstance(x, ast.BinOp) and isinstance(x.op, ast.Mult):
+            sides = (x.left, x.right)
+            if any(isinstance(y, ast.Attribute) and y.attr == "col_step" for sd in sides for y in ast.walk(sd)):
+                other = [sd for sd in sides if not any(isinstance(y, ast.Attribute) and y.attr == "col_step" for y in ast.walk(sd))]
+                if other:
+                    mults.append((x, other[0]))
+    normalised = any(isinstance(x, ast.Call) and ((isinstance(x.func, ast.Name) and x.func.id == "int") or (isinstance(x.func, ast.Attribute) and x.func.attr == "index"))
+                     and x.args and any(isinstance(y, ast.Name) and y.id == sp for y in ast.walk(x.args[0])) for x in ast.walk(m.node))
+    fa = ctx.fa(m)
+    raw = []
+    for x, other in mults:
+        n = fa.node_of(x)
+        if n is None:
+            continue
+        t = fa.term(other, n)
+        # the factor is the caller's scalar itself (possibly plus lengths for negative indices)
+        if any(y.k == "param" and y.a[0] == sp for a in alts(t) for y in walk(a)) and not any(y.k == "attr" and y.a[1] in ("start", "stop", "step") for a in alts(t) for y in walk(a)):
+            raw.append(x)
+    if not raw:
+        ctx.holds(rule, m, what + " [no scalar index reaches the stride]", key="scalar-index", engine="KB")
+        return
+    ctx.decide(rule, m, what, True if normalised else False,
+               "`%s` multiplies the caller's index as it came: a numpy unsigned scalar (np.uint8(1)) times a negative stride raises OverflowError, so a reversed "
+               "view refuses an index that an equal fresh array accepts" % ast.unparse(raw[0]), node=raw[0], key="scalar-index", engine="KB")
+
+
+def int_column_model(ctx, tk, rule, Ns=(0, 1, 2, 3), col_steps=(1, 2, -1)):
     """E9: an integer column of a view whose rows all have N cells: an index in [-N, N) addresses cell (idx mod N) of every row
     (raw offset col_step * (idx mod N), one cell per row); every other index is refused on every path"""
     from .absint import Interp, Iv, Obj, REFUSED, INF
@@ -590,7 +639,7 @@ def int_column_model(ctx, tk, rule, Ns=(1, 2, 3), col_steps=(1, 2, -1)):
         cells = [(str(v), Iv(v, v), v) for v in range(-N - 1, N + 2)] + [("<=%d" % (-N - 2), Iv(-INF, -N - 2), None), (">=%d" % (N + 2), Iv(N + 2, INF), None)]
         bad, ok, unk = [], 0, 0
         for name, av, v in cells:
-            I = Interp(ctx, cls, {"lengths": Iv(N, N), "starts": Iv(0, 0), "col_step": Iv(C, C), "len:lengths": Iv(1, INF)})
+            I = Interp(ctx, cls, {"lengths": Iv(N, N), "starts": Iv(0, 0), "col_step": Iv(C, C), "len:lengths": Iv(1, INF), "len:rows": Iv(1, INF)})
             res = I.run(m, [av], {})
             in_range = v is not None and -N <= v < N
             if in_range:
